@@ -318,7 +318,37 @@ impl<'tcx> Cx<'tcx> {
                 def = canon(tcx, uv.def);
                 out.consts.insert(def.clone());
             } else {
-                def = format!("promoted#{}", uv.promoted.unwrap().as_usize());
+                // a promoted temporary (e.g. `&NAMED_CONST`): report the named constants it is built from
+                let p = uv.promoted.unwrap();
+                let mut inner: Vec<String> = Vec::new();
+                let proms = tcx.promoted_mir(uv.def);
+                if let Some(pb) = proms.get(p) {
+                    for data in pb.basic_blocks.iter() {
+                        for st in &data.statements {
+                            if let StatementKind::Assign(b) = &st.kind {
+                                let mut ops: Vec<&Operand<'tcx>> = Vec::new();
+                                match &b.1 {
+                                    Rvalue::Use(o, ..) | Rvalue::Cast(_, o, _) | Rvalue::Repeat(o, _) | Rvalue::UnaryOp(_, o) => ops.push(o),
+                                    Rvalue::Aggregate(_, os) => ops.extend(os.iter()),
+                                    Rvalue::BinaryOp(_, ab) => { ops.push(&ab.0); ops.push(&ab.1); }
+                                    _ => {}
+                                }
+                                for o in ops {
+                                    if let Operand::Constant(c2) = o {
+                                        if let mir::Const::Unevaluated(uv2, _) = c2.const_ {
+                                            if uv2.promoted.is_none() {
+                                                let d2 = canon(tcx, uv2.def);
+                                                out.consts.insert(d2.clone());
+                                                inner.push(d2);
+                                            }
+                                        }
+                                    }
+                                }
+                            }
+                        }
+                    }
+                }
+                def = format!("promoted#{}[{}]", p.as_usize(), inner.join(","));
             }
         }
         let scalarish = matches!(ty.kind(), ty::Int(_) | ty::Uint(_) | ty::Bool | ty::Char);
@@ -463,7 +493,7 @@ impl<'tcx> Cx<'tcx> {
         let did = ldid.to_def_id();
         let body: &Body<'tcx> = tcx.optimized_mir(did);
         let name = canon(tcx, did);
-        let (file, line) = line_of(tcx, tcx.def_span(did));
+        let (file, line) = line_of(tcx, tcx.def_ident_span(did).unwrap_or_else(|| tcx.def_span(did)));
         let kind = tcx.def_kind(did);
         let mut out = FnOut {
             calls: vec![],
